@@ -421,6 +421,16 @@ func (w *fzWorld) genCases(c *engine.Ctx, rng *rand.Rand) []fzCase {
 	add("certpref-only", "", [][]byte{[]byte(cp + "abc")})
 	add("certpref-only", "with h2", [][]byte{[]byte("h2"), []byte(cp + "abc")})
 	add("no-library-proto", "h2", [][]byte{[]byte("h2")})
+	// lists that fill most of what the ALPN extension can carry, on handshakes that succeed (a plain client on a
+	// listener with a base TLS configuration) and on ones that do not
+	for _, total := range []int{20000, 33000, 40000, 60000} {
+		big := [][]byte{[]byte("h2")}
+		for n := 3; n+251 < total; n += 251 {
+			big = append(big, []byte(fmt.Sprintf("filler-%05d-", len(big))+strings.Repeat("x", 237)))
+		}
+		add("huge-alpn", fmt.Sprintf("h2 plus fillers, %d bytes", total), big)
+		add("huge-alpn", fmt.Sprintf("fillers then a fetch request, %d bytes", total), append(append([][]byte{}, big[1:]...), fch...))
+	}
 
 	// (b) structured hostile requests that pass the signature checks
 	hostile := func(detail string, mut func(*types.FetchNodeCredentialsInfo), post func(*types.FetchNodeCredentialsRequest)) {
@@ -769,6 +779,7 @@ func runFuzzListen(c *engine.Ctx) engine.Result {
 	r.Require("class:signed-with-certpref", 10)
 	r.Require("class:odd-client-cert", 16)
 	r.Require("class:crafted-hello", 100)
+	r.Require("class:huge-alpn", 16)
 	r.Require("class:raw", 10)
 	r.Require("class:dropped", 10)
 	r.Require("closed_listener_reports_non_temporary", 4)
